@@ -35,6 +35,12 @@ type LifeConn struct {
 	TimeoutMs int     `json:"timeout_ms,omitempty"`
 	Traffic   []int   `json:"traffic,omitempty"` // bytes the peer sends (each entry one burst)
 	Enders    []Ender `json:"enders,omitempty"`
+	// After (dial only): k > 0 = an application that reconnects when connection k-1 goes away:
+	// the dial is issued by the goroutine that closed it, as soon as its Close / CloseWithError
+	// has returned (the new socket usually gets the descriptor number that has just become
+	// free), or, when nothing in the plan of k-1 closes it from the application side, from
+	// inside its close notification
+	After int `json:"after,omitempty"`
 }
 
 // LifeCase is a case of the lifecycle scenario.
@@ -87,6 +93,9 @@ func genLifeCase(r *simrt.Rand, tier string) *LifeCase {
 			if r.Bool(0.6) || cn.Dial == "blackhole" {
 				cn.TimeoutMs = r.Pick(1, 50, 1000)
 			}
+			if i > 0 && r.Bool(0.3) {
+				cn.After = 1 + r.Intn(i)
+			}
 		}
 		if c.Eng.Network == "unix" && cn.Kind != "accepted" {
 			cn.Kind = "accepted"
@@ -114,6 +123,24 @@ func genLifeCase(r *simrt.Rand, tier string) *LifeCase {
 			cn.Enders = append(cn.Enders, e)
 		}
 		c.Conns = append(c.Conns, cn)
+	}
+	if c.Eng.Network == "tcp" && r.Bool(0.15) {
+		// the reconnect family: a connection that the peer and the application end at about the
+		// same time, and a dial that is issued as soon as the application's Close has returned -
+		// descriptor numbers, epoll registrations and events that were harvested for the old
+		// connection meet the new one
+		first := LifeConn{Kind: r.PickS("dial", "dial", "accepted"), Enders: []Ender{
+			{Kind: r.PickS("peerfin", "peerclose", "peerrst"), DelayUs: r.Pick(0, 1, 10)},
+			{Kind: r.PickS("close", "closeerr"), DelayUs: r.Pick(0, 1, 10)}}}
+		if first.Kind == "dial" {
+			first.Dial = "ok"
+		}
+		for j := 0; j < r.Intn(2); j++ {
+			first.Traffic = append(first.Traffic, r.Pick(1, 10))
+		}
+		second := LifeConn{Kind: "dial", Dial: r.PickS("ok", "refused", "blackhole", "blackhole"), TimeoutMs: r.Pick(1, 50), After: 1}
+		c.K.FDReuse = true
+		c.Conns = []LifeConn{first, second}
 	}
 	return c
 }
@@ -200,6 +227,8 @@ type lifeState struct {
 	established bool // ground truth from the kernel model
 	plan      LifeConn
 	overlap   bool
+	deferred  bool // a dial that waits for another connection to go away (and has not been issued yet)
+	reconnect []func() // dials to issue when this connection has been closed by the application
 }
 
 func errClassMatches(kind string, want error, got error) bool {
@@ -258,6 +287,7 @@ func runLife(t *testing.T, ci interface{}, trace bool) *common.Outcome {
 			return w.K.Listen(&kernel.Addr{Net: "tcp", IP: [4]byte{127, 0, 0, 1}, Port: port})
 		}
 		closesOverlap := 0
+		stopping := false // (a reconnect is not issued from the close notifications Stop delivers)
 		for i, plan := range c.Conns {
 			i, plan := i, plan
 			st := &lifeState{plan: plan}
@@ -300,6 +330,10 @@ func runLife(t *testing.T, ci interface{}, trace bool) *common.Outcome {
 								nc.Close()
 							}
 							lc.done = simrt.Seq()
+							for _, f := range st.reconnect {
+								f()
+							}
+							st.reconnect = nil
 							if e.After {
 								watchG, watchFD = simrt.CurID(), fd
 								if !c.K.FDReuse || len(c.Conns) == 1 {
@@ -495,63 +529,97 @@ func runLife(t *testing.T, ci interface{}, trace bool) *common.Outcome {
 				cs := w.Expect(addr, nil)
 				cs.Dialed = true
 				attach(cs)
-				cb := func(nc *nbio.Conn, err error) {
-					st.dialCalls++
-					cs.DialCB++
-					cs.DialErr = err
-					st.dialErr = err
-					st.dialConn = nc
-					simrt.Ev("DialCB", int64(cs.ID))
-					if simrt.Tracing() {
-						simrt.Logf("dial callback conn %d err=%v", cs.ID, err)
+				issue := func() {
+					cb := func(nc *nbio.Conn, err error) {
+						st.dialCalls++
+						cs.DialCB++
+						cs.DialErr = err
+						st.dialErr = err
+						st.dialConn = nc
+						simrt.Ev("DialCB", int64(cs.ID))
+						if simrt.Tracing() {
+							simrt.Logf("dial callback conn %d err=%v", cs.ID, err)
+						}
+						if st.dialCalls > 1 {
+							w.Fail("C03", "dial-callback-twice", plan.Dial, "the dial callback of connection %d was invoked %d times", cs.ID, st.dialCalls)
+						}
+						if err == nil {
+							if nc == nil {
+								w.Fail("C03", "dial-success-without-conn", plan.Dial, "dial callback with nil error and nil connection")
+								return
+							}
+							if cs.C == nil {
+								cs.C = nc
+								w.byC[nc] = cs
+							}
+							// ground truth: is the connection really established in the kernel?
+							ks := w.K.SockOf(ProbeFD(nc))
+							if plan.Dial != "ok" {
+								w.Fail("C03", "dial-false-success", plan.Dial, "the dial callback reported success (err == nil) but the kernel never established the connection (dial outcome in the model: %s)", plan.Dial)
+							}
+							if ks != nil && ks.Peer() != nil {
+								cs.Peer = ks.Peer()
+								cs.Local = ks
+							}
+							startEnders(cs)
+						}
 					}
-					if st.dialCalls > 1 {
-						w.Fail("C03", "dial-callback-twice", plan.Dial, "the dial callback of connection %d was invoked %d times", cs.ID, st.dialCalls)
+					var err error
+					if plan.TimeoutMs > 0 {
+						err = w.G.DialAsyncTimeout("tcp", addr, time.Duration(plan.TimeoutMs)*time.Millisecond, cb)
+						// the dial timer may fire just before the connect completes: a possible cause for every timed dial
+						st.causes = append(st.causes, &lifeCause{kind: "dialtimeout", invoke: 0})
+					} else {
+						err = w.G.DialAsync("tcp", addr, cb)
 					}
-					if err == nil {
-						if nc == nil {
-							w.Fail("C03", "dial-success-without-conn", plan.Dial, "dial callback with nil error and nil connection")
-							return
-						}
-						if cs.C == nil {
-							cs.C = nc
-							w.byC[nc] = cs
-						}
-						// ground truth: is the connection really established in the kernel?
-						ks := w.K.SockOf(ProbeFD(nc))
-						if plan.Dial != "ok" {
-							w.Fail("C03", "dial-false-success", plan.Dial, "the dial callback reported success (err == nil) but the kernel never established the connection (dial outcome in the model: %s)", plan.Dial)
-						}
-						if ks != nil && ks.Peer() != nil {
-							cs.Peer = ks.Peer()
-							cs.Local = ks
-						}
-						startEnders(cs)
+					if plan.Dial == "refused" {
+						st.causes = append(st.causes, &lifeCause{kind: "refused", invoke: 0})
+					}
+					if err != nil {
+						st.dialCalls = -1 // synchronous error return: no callback expected
+					}
+					if plan.Dial == "ok" {
+						st.established = true
+						// accept on the harness side when the connection shows up
+						pending++
+						simrt.GoNamed("peer-accept", func() {
+							defer func() { pending-- }()
+							simrt.WaitStuck("peer-accept", time.Second, func() bool { return peerLn.AcceptReady() })
+							peerLn.Accept()
+						})
 					}
 				}
-				var err error
-				if plan.TimeoutMs > 0 {
-					err = w.G.DialAsyncTimeout("tcp", addr, time.Duration(plan.TimeoutMs)*time.Millisecond, cb)
-					// the dial timer may fire just before the connect completes: a possible cause for every timed dial
-					st.causes = append(st.causes, &lifeCause{kind: "dialtimeout", invoke: 0})
+				if a := plan.After - 1; a >= 0 && a < i && css[a] != nil && css[a].Closes == 0 {
+					prev, old := css[a], css[a].OnCloseHook
+					st.deferred = true
+					appCloses := false
+					for _, e := range states[a].plan.Enders {
+						if e.Kind == "close" || e.Kind == "closeerr" {
+							appCloses = true
+						}
+					}
+					if appCloses {
+						states[a].reconnect = append(states[a].reconnect, func() {
+							if st.deferred && !stopping {
+								st.deferred = false
+								o.Probe("dial_issued_after_close_returned")
+								issue()
+							}
+						})
+					} else {
+						prev.OnCloseHook = func(pcs *ConnState, err error) {
+							if old != nil {
+								old(pcs, err)
+							}
+							if st.deferred && !stopping {
+								st.deferred = false
+								o.Probe("dial_issued_inside_close_notification")
+								issue()
+							}
+						}
+					}
 				} else {
-					err = w.G.DialAsync("tcp", addr, cb)
-				}
-				if plan.Dial == "refused" {
-					st.causes = append(st.causes, &lifeCause{kind: "refused", invoke: 0})
-				}
-				if err != nil {
-					st.dialCalls = -1 // synchronous error return: no callback expected
-				}
-				if plan.Dial == "ok" {
-					st.established = true
-					// accept on the harness side when the connection shows up
-					pending++
-					simrt.GoNamed("peer-accept", func() {
-						defer func() { pending-- }()
-						simrt.WaitStuck("peer-accept", time.Second, func() bool { return peerLn.AcceptReady() })
-						peerLn.Accept()
-					})
+					issue()
 				}
 			}
 		}
@@ -563,7 +631,7 @@ func runLife(t *testing.T, ci interface{}, trace bool) *common.Outcome {
 		// ---- quiescent: dial outcomes -------------------------------------------------------
 		for i, st := range states {
 			plan := st.plan
-			if plan.Kind != "dial" || st.dialCalls < 0 {
+			if plan.Kind != "dial" || st.dialCalls < 0 || st.deferred {
 				continue
 			}
 			if plan.Dial == "blackhole" && plan.TimeoutMs == 0 {
@@ -604,6 +672,7 @@ func runLife(t *testing.T, ci interface{}, trace bool) *common.Outcome {
 		// ---- Stop: by the time it returns every opened connection has its notification ----
 		stopped := false
 		simrt.GoNamed("stopper", func() {
+			stopping = true
 			for _, cs := range css {
 				if cs != nil && cs.Closes == 0 {
 					if st, ok := cs.Data.(*lifeState); ok {
